@@ -317,6 +317,15 @@ def oracle_c13(step):
             # (freshness promotion after the import); anything else is new
             if cls == "prune" and rep.get("files") and only_removals(step.s["files"], rep["files"]):
                 f = "F-C13-prune"
+            # the known finding for regenerate exemptions: the second run re-minimises the
+            # exemptions the first run wrote (narrows / merges / drops them, and then drops
+            # audits that became unnecessary); nothing else may change
+            if cls == "regenerate-exemptions" and rep.get("files"):
+                a, b = dict(step.s["files"]), dict(rep["files"])
+                strip = lambda t: re.sub(r"\[\[exemptions\..*", "", t, flags=re.S)  # noqa
+                if only_removals({"config": strip(a["config"]), "audits": a["audits"], "imports": a["imports"]},
+                                 {"config": strip(b["config"]), "audits": b["audits"], "imports": b["imports"]}):
+                    f = "F-C13-regenerate"
             out.append({"what": f"re-running `{cmd}` with unchanged inputs changed store files {rep['same_bytes']}", "finding": f})
     if cls == "check-locked" and step.pre is not None and step.post is not None:
         if jkey(step.pre) != jkey(step.post):
